@@ -8,6 +8,7 @@ import (
 	"bytes"
 	"context"
 	"crypto/ecdsa"
+	"crypto/elliptic"
 	"crypto/sha256"
 	"net/http"
 	"time"
@@ -29,7 +30,7 @@ func Harness_C01_precert() {
 	be, rl := &envBackend{}, &envReqLog{}
 	li := envLogInfo(be, rl)
 	sig := vBytes("sig", 2)
-	sg := &envSigner{pub: &ecdsa.PublicKey{}, sig: sig}
+	sg := &envSigner{pub: &ecdsa.PublicKey{Curve: elliptic.P256()}, sig: sig}
 	li.signer = sg
 	sec := vI64("clock.sec")
 	vAssume(sec >= 0 && sec <= 4102444800)
